@@ -96,6 +96,40 @@ type svcCmd struct {
 	epoch  int // Start/Stop generation in which it was issued
 }
 
+// dispatchedBefore reports whether the packet of command c entered a connection
+// before tick `before`. Publishes carry their tag; a (un)subscribe is only
+// judged if no other command of the same kind, topic and QoS was issued, so
+// that the packet on the wire is attributable.
+func dispatchedBefore(w *World, cmds []*svcCmd, c *svcCmd, before uint64) bool {
+	if c.kind != "pub" {
+		for _, o := range cmds {
+			if o != c && o.kind == c.kind && o.topic == c.topic && (c.kind == "unsub" || o.qos == c.qos) {
+				return false
+			}
+		}
+	}
+	for _, e := range w.Hist {
+		if e.K != EvSend || e.Seq >= before || e.Seq < c.issued {
+			continue
+		}
+		switch q := e.P.(type) {
+		case *packet.Publish:
+			if c.kind == "pub" && string(q.Message.Payload) == fmt.Sprintf("#%d#", c.tag) {
+				return true
+			}
+		case *packet.Subscribe:
+			if c.kind == "sub" && len(q.Subscriptions) == 1 && q.Subscriptions[0].Topic == c.topic && int(q.Subscriptions[0].QOS) == c.qos {
+				return true
+			}
+		case *packet.Unsubscribe:
+			if c.kind == "unsub" && len(q.Topics) == 1 && q.Topics[0] == c.topic {
+				return true
+			}
+		}
+	}
+	return false
+}
+
 func runC17(t *testing.T, p *core.Plan) *core.Result {
 	res := &core.Result{Check: "C17", Seed: p.Seed}
 	var w *World
@@ -154,15 +188,39 @@ func runC17(t *testing.T, p *core.Plan) *core.Result {
 			case "stop":
 				clear := it.A == 1
 				e := epoch
+				var stopInv uint64
+				returned := false
 				r.call("stop", func() {
+					stopInv = rt.Tick()
 					if svc.Stop(clear) {
 						running = false
 						if clear {
 							stopsCleared[e] = true
 						}
 					}
+					returned = true
 				})
 				w.Run(11 * time.Second) // DisconnectTimeout bounds a Stop with pending futures
+				if clear && returned && stopsCleared[e] {
+					// Stop(true) - online or offline - cancels every future that
+					// existed when it was called
+					res.Count("midway_clearing_stops", 1)
+					for _, c := range cmds {
+						if c.fut == nil || c.fut.resolved || c.fut.created >= stopInv {
+							continue
+						}
+						// The command queue belongs to the service and survives
+						// Stop/Start (queueing before the first Start is the usual
+						// usage): only futures of commands that had been handed to
+						// a client - their packet reached the connection - are
+						// "pending futures" that Stop(true) must cancel.
+						if !dispatchedBefore(w, cmds, c, stopInv) {
+							res.Count("queued_commands_surviving_stop", 1)
+							continue
+						}
+						res.Violate("C17", "C17.stop-clears-futures", c.fut.kind+"-midway", fmt.Sprintf("the %s future #%d, whose command had reached the connection before Stop(true) was called, is still unresolved after Stop returned", c.fut.kind, c.fut.tag))
+					}
+				}
 			case "sub", "unsub", "pub":
 				c := &svcCmd{kind: it.K, tag: it.D, qos: it.A, epoch: epoch}
 				switch it.K {
